@@ -88,6 +88,13 @@ fn mass_patterns(n: usize) -> Vec<MassPat> {
             uu[(i - 1) * n + i] = -0.5;
         }
         v.push(MassPat { name: "unit upper bidiagonal".into(), m: uu, ml: 0, mu: 1, identity: false, singular: false });
+        // the exchange matrix (ones on the anti-diagonal): nonsingular, every diagonal entry zero for even n - every
+        // factorisation of fac*M - J has to interchange rows, and the pivot rows contain exact zeros
+        let mut ex = vec![0.0; n * n];
+        for i in 0..n {
+            ex[i * n + (n - 1 - i)] = 1.0;
+        }
+        v.push(MassPat { name: "exchange matrix".into(), m: ex, ml: n - 1, mu: n - 1, identity: false, singular: false });
         let mut s = eye.clone();
         s[(n - 1) * n + n - 1] = 0.0;
         v.push(MassPat { name: "diag(1,..,1,0) index-1 DAE".into(), m: s, ml: 0, mu: 0, identity: false, singular: true });
@@ -564,6 +571,63 @@ pub fn run_check(replay: Option<Value>) -> i32 {
         Some(out)
     });
     rep.absorb(pouts.into_iter().flatten().collect());
+
+    // an ODE whose equations are listed in exchanged order: M = [[0,1],[1,0]], f = (y0 - 2 y1, -y0), i.e.
+    // y0' = -y0, y1' = y0 - 2 y1 with y = (e^-t, e^-t + 2 e^-2t).  J has an exact zero at (1,1): every complex
+    // factorisation interchanges rows and meets a zero entry in the pivot row
+    for (si, ms) in [MatrixStorage::Full, MatrixStorage::Banded { ml: 1, mu: 1 }].iter().enumerate() {
+        for jsrc in 0..2usize {
+            for (ti, tol) in [1e-5, 1e-8].iter().enumerate() {
+                let key = format!("odeperm:{}.{}.{}", si, jsrc, ti);
+                if only.as_ref().map(|o| *o != key).unwrap_or(false) {
+                    continue;
+                }
+                let p = Prob {
+                    name: "ODE with exchanged equations".into(),
+                    n: 2,
+                    f: Arc::new(|_t, y, d| {
+                        d[0] = y[0] - 2.0 * y[1];
+                        d[1] = -y[0];
+                    }),
+                    jac: Some(Arc::new(|_t, _y| vec![1.0, -2.0, -1.0, 0.0])),
+                    flow: None,
+                    y0: vec![1.0, 3.0],
+                    linear_homogeneous: true,
+                };
+                let mut c = Cfg::new(Method::RADAU, 0.0, 2.0, &p.y0).tol(*tol, tol * 1e-2);
+                c.user_jac = jsrc == 0;
+                c.mass_storage = ms.clone();
+                let massf = |m: &mut Matrix| {
+                    m[(0, 1)] = 1.0;
+                    m[(1, 0)] = 1.0;
+                    if let MatrixStorage::Full = m.storage {
+                        m[(0, 0)] = 0.0;
+                        m[(1, 1)] = 0.0;
+                    }
+                };
+                let r = run_with(&p, &c, None, Some(&massf));
+                rep.evaluations += 1;
+                rep.transitions += r.st.n_ode;
+                let desc = json!({"key": key, "problem": p.name, "mass_storage": format!("{:?}", ms), "jacobian": if jsrc == 0 { "user" } else { "finite-difference" }, "rtol": tol, "outcome": r.outcome_name()});
+                match r.sol() {
+                    Some(s) if s.status == Status::Success => {
+                        let mut worst: f64 = 0.0;
+                        for (t, y) in s.t.iter().zip(&s.y) {
+                            let ex = [(-t).exp(), (-t).exp() + 2.0 * (-2.0 * t).exp()];
+                            worst = worst.max((y[0] - ex[0]).abs()).max((y[1] - ex[1]).abs());
+                        }
+                        let bound = 50.0 * (s.naccpt.max(1) as f64) * (tol * 1e-2 + tol * 3.0);
+                        if worst > bound {
+                            rep.violations.push(Violation::new(&key, "mass-vs-explicit", format!("worst sample error {:e} against the closed form exceeds 50*naccpt*tol = {:e}", worst, bound), desc).with("mass", "exchanged").with("n", 2));
+                        }
+                        rep.validated += s.t.len() as u64;
+                        *rep.tags.entry("exchanged-equations".into()).or_insert(0) += 1;
+                    }
+                    _ => rep.violations.push(Violation::new(&key, "outcome", format!("ODE with exchanged equations: run ended with {}", r.outcome_name()), desc).with("mass", "exchanged").with("n", 2)),
+                }
+            }
+        }
+    }
 
     // a right-hand side with a one-sided domain, started on its boundary: a body released from rest with drag
     // v^1.5 (not a number for v < 0).  The default (differenced) Jacobian must stay inside the domain the state is
